@@ -168,7 +168,7 @@ ForkBBlocks == 1..10
 (* an address removed while a new one arrives in the same block, competing branches and reorganisation      *)
 BalTx ==
     301 :> T(<<In(1, 1)>>, <<O(10, 0, 1, 4), O(10, 0, 1, 4), O(10, 0, 1, 4), O(10, 0, 1, 4),
-                              O(0, 100000, 2, 5), O(0, 99999, 2, 5), O(9, 99700001, 3, 2)>>) @@
+                              O(0, 100000, 2, 5), O(0, 99999, 2, 5), O(9, 99700001, 3, 2), [amt |-> Zero, addr |-> 3, st |-> 2]>>) @@   \* #8: zero value: indexed only when the limit is 0
     302 :> T(<<In(301, 1), In(301, 2)>>, <<O(19, 99900000, 4, 1)>>) @@
     303 :> T(<<In(301, 3), In(301, 4)>>, <<O(19, 99900000, 1, 4)>>) @@
     304 :> T(<<In(301, 5), In(301, 7)>>, <<O(9, 99700001, 2, 5)>>) @@
